@@ -33,6 +33,7 @@ OBLIGATIONS = [
     "Grog.C03.no_command_start_under_cancelled_context",
     "Grog.C03.command_only_after_all_dependencies",
     "Grog.C03.composed_no_command_start_after_cancel",
+    "Grog.C03.every_command_needs_a_worker",
     "Grog.C03.exec_at_most_once",
     "Grog.C03.exec_more_than_once_witness_old",
 ]
@@ -66,6 +67,12 @@ def run(ctx):
     for w in (1, 2, 3, 8):
         n, e, fam = W.g_forest(40)
         cases.append(dict(W.make_case(rng, family=(n, e, fam), workers=w, fail_fast=False), latUs=[300] * n, fail=[], unsel=[]))
+    # a dependency listed twice that finishes early while another dependency is still running
+    for rep in range(6):
+        for edges, n, lat in (([[0, 2], [0, 2], [1, 2]], 3, [0, 3000, 0]), ([[1, 3], [0, 3], [0, 3], [0, 3], [2, 3]], 4, [0, 2000, 4000, 0])):
+            c = W.make_case(rng, family=(n, edges, "dup-edge"), workers=rng.choice([0, 3]), fail_fast=rep % 2 == 1)
+            c.update(edges=edges, latUs=lat, fail=[], unsel=[])
+            cases.append(c)
     # boundary sizes (buffer sizes / powers of two), each twice (different schedules)
     for k in (63, 64, 65, 127, 128, 129, 255, 256, 257):
         for rep in range(2):
@@ -156,11 +163,13 @@ def run(ctx):
 
 
 def cli_case(ctx, idx, seed, fixed=None):
-    """one cold build through the real CLI; oracle on the O_APPEND trace of the commands"""
+    """one cold build through the real CLI; oracle on the O_APPEND trace of the commands (target commands and
+    output-check commands both count as commands)"""
     import random
     rng = random.Random(seed)
     pick = rng.random()
-    if fixed:
+    fixed = fixed or {}
+    if "graph" in fixed:
         n, edges, fam = fixed["graph"]
     elif pick < 0.25:
         n, edges, fam = W.g_fanout(rng.randint(3, 6))
@@ -170,16 +179,21 @@ def cli_case(ctx, idx, seed, fixed=None):
         n, edges, fam = W.g_forest(rng.randint(6, 10))
     else:
         n, edges, fam = W.g_layered(rng, rng.randint(5, 10), rng.randint(2, 4), 2)
-    workers = rng.choice([1, 2, 3, 8])
-    mode = rng.choice(["all", "minimal"])
-    sleep = [rng.choice([0, 0.05, 0.12]) for _ in range(n)]
-    if fixed:
-        workers, mode = fixed["workers"], fixed["mode"]
-    ws = W.CliWs(ctx, f"c03-{idx}", n, edges, sleep=sleep, workers=workers)
+    workers = fixed.get("workers", rng.choice([1, 2, 3, 8]))
+    mode = fixed.get("mode", rng.choice(["all", "minimal"]))
+    sleep = fixed.get("sleep", [rng.choice([0, 0.05, 0.12]) for _ in range(n)])
     ins, outs = W.deps_of(n, edges), W.dependants(n, edges)
-    nocache = sorted(m for m in range(n) if rng.random() < 0.25)
-    if fixed:
-        nocache = fixed["nocache"]
+    if "opts" in fixed:
+        opts = fixed["opts"]
+    else:
+        opts = {"dup_deps": [m for m in range(n) if ins[m] and rng.random() < 0.3],
+                "no_outputs": [m for m in range(n) if rng.random() < 0.15],
+                "check_only": [m for m in range(n) if rng.random() < 0.12],
+                "via_alias": [m for m in range(n) if outs[m] and rng.random() < 0.2]}
+        opts["no_outputs"] = [m for m in opts["no_outputs"] if m not in opts["check_only"]]
+    ws = W.CliWs(ctx, f"c03-{idx}", n, edges, sleep=sleep, workers=workers, **{k: tuple(v) for k, v in opts.items()})
+    check_only = set(opts.get("check_only", ()))
+    nocache = fixed.get("nocache", sorted(m for m in range(n) if m not in check_only and rng.random() < 0.25))
     if nocache:
         p = os.path.join(ws.ws, "pkg", "BUILD.json")
         j = json.load(open(p))
@@ -187,26 +201,31 @@ def cli_case(ctx, idx, seed, fixed=None):
             j["targets"][m]["tags"] = ["no-cache"]
         json.dump(j, open(p, "w"))
     b = ws.build(flags=("--load-outputs=" + mode,))
-    res = {"n": n, "edges": edges, "family": fam, "workers": workers, "mode": mode, "nocache": nocache, "rc": b["rc"], "bad": []}
+    res = {"n": n, "edges": edges, "family": fam, "workers": workers, "mode": mode, "nocache": nocache, "opts": opts, "sleep": sleep,
+           "rc": b["rc"], "bad": []}
     bad = res["bad"]
     if b["rc"] != 0:
         bad.append(("build-failed", f"cold build exited {b['rc']}: {b['out'][-300:]}"))
     open_cmds, done_ok, starts = set(), set(), {}
-    peak = 0
+    peak, peak_what = 0, []
     for k, m, _ in b["trace"]:
-        if k == "s":
-            starts[m] = starts.get(m, 0) + 1
+        if k in ("s", "cs"):
+            if k == "s":
+                starts[m] = starts.get(m, 0) + 1
             for d in ins[m]:
                 if d not in done_ok:
-                    bad.append(("started-before-dependency-succeeded", f"command of t{m} started before its dependency t{d} ended"))
-            open_cmds.add(m)
-            peak = max(peak, len(open_cmds))
+                    bad.append(("started-before-dependency-succeeded",
+                                f"{'command' if k == 's' else 'output check'} of t{m} started before its dependency t{d} ended"))
+            open_cmds.add((k[0] if k == "s" else "c", m))
+            if len(open_cmds) > peak:
+                peak, peak_what = len(open_cmds), sorted(open_cmds)
         else:
-            open_cmds.discard(m)
+            open_cmds.discard(("s" if k == "e" else "c", m))
             done_ok.add(m)
     res["peak"], res["starts"] = peak, starts
     if peak > workers:
-        bad.append(("more-commands-than-workers", f"{peak} target commands ran at the same time with num_workers={workers}"))
+        bad.append(("more-commands-than-workers",
+                    f"{peak} commands (target commands / output checks: {peak_what}) ran at the same time with num_workers={workers}"))
     for m, k in sorted(starts.items()):
         if k > 1:
             if mode == "minimal" and m in nocache and outs[m]:
@@ -214,8 +233,8 @@ def cli_case(ctx, idx, seed, fixed=None):
                             f"load_outputs=minimal: the no-cache target t{m} with {len(outs[m])} dependants ran {k} times in one build"))
             else:
                 bad.append(("executed-more-than-once", f"target t{m} ran {k} times in one build (mode {mode})"))
-    if set(starts) != set(range(n)) and b["rc"] == 0:
-        bad.append(("selected-target-not-executed", f"cold build did not execute {sorted(set(range(n)) - set(starts))}"))
+    if set(starts) != set(range(n)) - check_only and b["rc"] == 0:
+        bad.append(("selected-target-not-executed", f"cold build did not execute {sorted(set(range(n)) - check_only - set(starts))}"))
     # the re-run model (GrogModel.Pool.execCount) for no-cache roots whose dependants are cacheable
     res["model_counts"] = {}
     for m in nocache:
@@ -223,8 +242,30 @@ def cli_case(ctx, idx, seed, fixed=None):
             res["model_counts"][m] = (1, starts.get(m, 0))     # Pool.execCount with producedInThisBuild
     if bad:
         res["out"] = b["out"][-800:]
+        res["trace"] = [(k, m) for k, m, _ in b["trace"]]
     ws.cleanup()
     return res
+
+
+NO_OPTS = {"dup_deps": [], "no_outputs": [], "check_only": [], "via_alias": []}
+TARGETED_CLI = [
+    # the input of the fixed finding F-nocache-rerun (regression): no-cache root with two / five dependants, minimal mode
+    {"graph": W.g_fanout(3), "workers": 2, "mode": "minimal", "nocache": [0], "opts": NO_OPTS},
+    {"graph": W.g_fanout(6), "workers": 2, "mode": "minimal", "nocache": [0], "opts": NO_OPTS},
+    # a dependency listed twice (":t0" and "//pkg:t0") that finishes early + a slow dependency without outputs:
+    # the dependant must still wait for the slow one (one edge per listed label in the graph)
+    {"graph": (3, [[0, 2], [1, 2]], "dup-dependency-label"), "workers": 4, "mode": "all", "nocache": [], "sleep": [0.1, 0.9, 0],
+     "opts": dict(NO_OPTS, dup_deps=[2], no_outputs=[1])},
+    {"graph": (4, [[0, 3], [1, 3], [2, 3]], "dup-dependency-label"), "workers": 4, "mode": "minimal", "nocache": [], "sleep": [0.7, 0.05, 0.05, 0],
+     "opts": dict(NO_OPTS, dup_deps=[3], no_outputs=[0], via_alias=[1])},
+    # a target WITHOUT a command whose output check is a command: it needs a worker like every other command
+    {"graph": (2, [], "command-less-with-check"), "workers": 1, "mode": "all", "nocache": [], "sleep": [0.8, 0.3],
+     "opts": dict(NO_OPTS, check_only=[1])},
+    {"graph": (5, [[0, 3], [0, 4]], "command-less-with-check"), "workers": 2, "mode": "all", "nocache": [], "sleep": [0.05, 0.7, 0.7, 0.3, 0.3],
+     "opts": dict(NO_OPTS, check_only=[3, 4])},
+    # more than 2*num_workers ready targets that each run longer than the 1 s enqueue backstop of the pool
+    {"graph": W.g_forest(4), "workers": 1, "mode": "all", "nocache": [], "sleep": [1.25] * 4, "opts": NO_OPTS},
+]
 
 
 def run_cli(ctx):
@@ -234,10 +275,8 @@ def run_cli(ctx):
     seeds = [ctx.rng.randrange(1 << 30) for _ in range(24 if quick else 240)]
     results = []
     with cf.ThreadPoolExecutor(max_workers=4) as ex:
-        futs = [ex.submit(cli_case, ctx, i, s) for i, s in enumerate(seeds)]
-        # the input of the fixed finding F-nocache-rerun (regression): no-cache root with two / five dependants, minimal mode
-        for j, k in enumerate((2, 5)):
-            futs.append(ex.submit(cli_case, ctx, 1000 + j, 7 + j, {"graph": W.g_fanout(k + 1), "workers": 2, "mode": "minimal", "nocache": [0]}))
+        futs = [ex.submit(cli_case, ctx, 1000 + j, 7 + j, t) for j, t in enumerate(TARGETED_CLI)]     # the slow ones first
+        futs += [ex.submit(cli_case, ctx, i, s) for i, s in enumerate(seeds)]
         for f in futs:
             results.append(f.result())
     count_bad = []
@@ -252,6 +291,7 @@ def run_cli(ctx):
     ctx.coverage["cli_workers"] = {str(w): sum(1 for r in results if r["workers"] == w) for w in (1, 2, 3, 8)}
     ctx.coverage["cli_peak_overlap"] = max([r["peak"] for r in results] or [0])
     ctx.coverage["cli_with_nocache"] = sum(1 for r in results if r["nocache"])
+    ctx.coverage["cli_features"] = {k: sum(1 for r in results if r["opts"].get(k)) for k in ("dup_deps", "no_outputs", "check_only", "via_alias")}
     ctx.coverage["cli_rerun_counts_compared"] = sum(len(r["model_counts"]) for r in results)
     if count_bad and not ctx.violations:
         r, m, exp, got = count_bad[0]
@@ -263,7 +303,8 @@ def replay(ctx, rep):
     c = rep.get("case")
     if rep.get("build"):
         b = rep["build"]
-        r = cli_case(ctx, 0, 1, {"graph": (b["n"], b["edges"], b["family"]), "workers": b["workers"], "mode": b["mode"], "nocache": b["nocache"]})
+        r = cli_case(ctx, 0, 1, {"graph": (b["n"], b["edges"], b["family"]), "workers": b["workers"], "mode": b["mode"], "nocache": b["nocache"],
+                                 "opts": b.get("opts", NO_OPTS), "sleep": b.get("sleep")})
         print("re-run of the CLI build:", {k: v for k, v in r.items() if k != "out"})
         return 0
     if rep.get("steps") is not None and c:
